@@ -81,6 +81,9 @@ type Exec struct {
 	Out  *Outcome
 	Cfg  verifsim.Config
 	Keep bool
+	// After holds judgements that must run outside the bubble (real-time
+	// timeouts, CPU-heavy checkers); RunCase runs them once the bubble is gone.
+	After []func(o *Outcome)
 }
 
 // SimKnobs are the scheduler-level knobs every scenario carries.
@@ -92,6 +95,7 @@ type SimKnobs struct {
 	Chunks   int      `json:"write_chunks"`
 	Delay    int      `json:"write_delay"`
 	TZ       int      `json:"tz"` // 0 UTC, 1 +05:30, 2 -08:00
+	Watch    []string `json:"watch,omitempty"`
 }
 
 func genKnobs(rt *rapid.T) SimKnobs {
@@ -138,6 +142,7 @@ func RunCase(t *testing.T, p Property, scn any, knobs SimKnobs, tape []int, keep
 	savedLocal := time.Local
 	defer func() { time.Local = savedLocal }()
 	var hp *harnessPanic
+	var after []func(o *Outcome)
 	func() {
 		defer func() {
 			// end-of-bubble "deadlock" panic caused by leaked, natively blocked tasks
@@ -166,12 +171,13 @@ func RunCase(t *testing.T, p Property, scn any, knobs SimKnobs, tape []int, keep
 			fs.SetWriteShape(knobs.Chunks, knobs.Delay)
 			cfg := verifsim.Config{
 				Tape: tape, PoolMode: knobs.PoolMode, MapSeed: knobs.MapSeed, Starve: knobs.Starve,
-				Offset: time.Duration(knobs.OffsetMs) * time.Millisecond, KeepTrace: keep,
+				Offset: time.Duration(knobs.OffsetMs) * time.Millisecond, KeepTrace: keep, Watch: knobs.Watch,
 			}
 			sim := verifsim.New(cfg)
 			x := &Exec{T: t, Sim: sim, FS: fs, Out: out, Cfg: cfg, Keep: keep}
 			t0 := time.Now()
 			p.Run(x, scn)
+			after = x.After
 			out.Leaked = sim.Close()
 			out.Steps, out.Switches, out.Preempts, out.EnvActs = sim.Steps(), sim.Switches(), sim.Preemptions(), sim.EnvActions()
 			out.TapeUsed = sim.TapeUsed()
@@ -196,6 +202,9 @@ func RunCase(t *testing.T, p Property, scn any, knobs SimKnobs, tape []int, keep
 	}()
 	if hp != nil {
 		panic(*hp)
+	}
+	for _, f := range after {
+		f(out)
 	}
 	return out
 }
